@@ -75,9 +75,8 @@ def load_known() -> List[dict]:
     return json.loads(p.read_text())["findings"]
 
 
-def run_property(prop: str, rules: List[RuleSpec], ctx, tier: str, explanation: str,
-                 assumptions: List[str]) -> int:
-    t0 = time.time()
+def evaluate(prop: str, rules: List[RuleSpec], ctx, tier: str):
+    """run the rules; returns (report, error message or None)."""
     rep = Report(prop, tier)
     try:
         for rs in rules:
@@ -93,11 +92,23 @@ def run_property(prop: str, rules: List[RuleSpec], ctx, tier: str, explanation: 
                     f"{rs.rid}: only {n} instance(s) examined, floor is {rs.floor} "
                     f"(vacuity guard: the anchor of this rule has moved or vanished)")
     except AnalysisError as e:
-        print(f"ANALYSIS-ERROR property={prop} {e}")
-        return 2
+        return rep, str(e)
     except Exception:
-        tb = traceback.format_exc()
-        print(f"ANALYSIS-ERROR property={prop} internal error in rule {rep._cur}:\n{tb}")
+        return rep, f"internal error in rule {rep._cur}:\n{traceback.format_exc()}"
+    return rep, None
+
+
+def run_property(prop: str, rules: List[RuleSpec], ctx, tier: str, explanation: str,
+                 assumptions: List[str]) -> int:
+    t0 = time.time()
+    if tier == "thorough":
+        from . import selftest
+        rules = list(rules) + [RuleSpec(f"{prop}.ST", lambda c, r, _p=prop: selftest.run(_p, c, r),
+                                        "self-test: seeded mutations and reverted fixes are detected", floor=1,
+                                        tier="thorough")]
+    rep, err = evaluate(prop, rules, ctx, tier)
+    if err is not None:
+        print(f"ANALYSIS-ERROR property={prop} {err}")
         return 2
 
     known = [k for k in load_known() if k["property"] == prop]
